@@ -1,16 +1,22 @@
 (** Executable entry point of the C16 model for the correspondence check.
     case = (0 init readers steps sched kcs hows kinds)
       init    : value of the Root store (see harness/stores: Root/Mid/Sub/Item/Leaf)
-      readers : list of accessor chains; chain = list of (kind arg): 0 field, 1 unwrap,
-                2 at_unkeyed, 3 keyed item, 4 hand on type-erased: (4 0) ArcField, (4 1) Field, (4 2) ArcStore root, 5 deref_field
+      readers : list of accessor chains; chain = list of (kind arg): 0 field, 1 unwrap ((1 1): via
+                map_untracked), 2 at_unkeyed, 3 keyed item, 4 hand on type-erased: (4 0) ArcField,
+                (4 1) Field, (4 2) ArcStore root, 5 deref_field, (6 10*a+i) field i of enum variant a
       steps   : list of (op chain value): 0 set, 1 patch, 2 report path(),
                 3 (chain-to-keyed-field keys): which live keys share a segment; which of
                 [keys] kept the segment of the previous report,
-                4 (reader): re-run that reader (its private trigger is notified)
+                4 (reader): re-run that reader (its private trigger is notified),
+                5 untracked set, 6 (chain-to-keyed-field): update_keys();
+                a 4th element of a step selects the write entry point in the harness (Set /
+                Update / maybe_update / raw writer / the untracked variants): same model
       sched   : executor choices ([] = FIFO)
       hows    : per reader, the read entry point: 1 = iterate over the collection the chain
                 addresses (iter_unkeyed / keyed into_iter); 0 try_read, 2 try_get, 3 try_with,
-                4 track + untracked read, 5 track_field + reader, 6 / 7 OptionStoreExt::map / invert
+                4 track + untracked read, 5 track_field + reader, 6 / 7 OptionStoreExt::map / invert,
+                8 Signal::from(subfield), 9 / 10 iterate in reverse / from both ends (reported in
+                collection order: as 1), 11 enum bool accessors
       kinds   : per reader, the subscriber: 0 Effect, 1 ImmediateEffect, 2 RenderEffect,
                 3 Memo read by an Effect, 4 Effect::new_isomorphic
       kcs     : per step, the two visiting orders of FieldKeys::update (hash order in the
@@ -20,10 +26,12 @@ From LV Require Import Base.Sexp Store.Paths Store.Keyed Store.Sim.
 Import ListNotations.
 
 Definition ShLeaf := SStruct [SInt; SInt].
-Definition ShItem := SStruct [SInt; SInt; ShLeaf].
-Definition ShSub := SStruct [SInt; ShLeaf; SVec SInt; SBox ShLeaf].
+Definition ShTag := SStruct [SInt; SInt].
+Definition ShItem := SStruct [SInt; SInt; ShLeaf; SKeyed ShTag].
+Definition ShChoice := SEnum [[]; [SInt; ShLeaf]; [SInt; SInt]].
+Definition ShSub := SStruct [SInt; ShLeaf; SVec SInt; SBox ShLeaf; SStruct [SInt; SInt]; ShChoice].
 Definition ShMid := SStruct [SInt; ShLeaf; SOpt ShLeaf; SKeyed ShItem].
-Definition ShRoot := SStruct [SInt; ShMid; SOpt ShSub; SVec ShSub; SKeyed ShItem].
+Definition ShRoot := SStruct [SInt; ShMid; SOpt ShSub; SVec ShSub; SKeyed ShItem; ShChoice].
 
 Definition as_step (s : sexp) : step :=
   match as_Z (nth_s 0 s) with
@@ -32,6 +40,7 @@ Definition as_step (s : sexp) : step :=
   | 2%Z => Idx (as_nat (nth_s 1 s))
   | 3%Z => Key (as_Z (nth_s 1 s))
   | 4%Z => Era (as_nat (nth_s 1 s))
+  | 6%Z => Var (as_nat (nth_s 1 s) / 10) (as_nat (nth_s 1 s) mod 10)
   | _ => Drf
   end.
 Definition as_chain (s : sexp) : list step := map as_step (as_list s).
@@ -46,10 +55,16 @@ Definition as_hstep (s : sexp) : hstep :=
            | Num z => if Z.ltb z 0 then HNop else HPoke (Z.to_nat z)
            | Lst _ => HPoke 0
            end
+  | 5%Z => HSetU (as_chain (nth_s 1 s)) (nth_s 2 s)
+  | 6%Z => HUpdKeys (as_chain (nth_s 1 s))
   | _ => HNop
   end.
 
 Definition abs_nat (s : sexp) : nat := Z.abs_nat (as_Z s).
+
+(** read entry points 9 (`.rev()`) and 10 (alternately from both ends) iterate like 1; the
+    harness reports the items in collection order *)
+Definition iter_how (h : nat) : nat := if orb (Nat.eqb h 9) (Nat.eqb h 10) then 1 else h.
 
 Definition run_C16 (c : sexp) : sexp :=
   match as_Z (nth_s 0 c) with
@@ -59,7 +74,7 @@ Definition run_C16 (c : sexp) : sexp :=
       let chains := map as_chain (as_list (nth_s 2 c)) in
       Lst (simulate ShRoot (nth_s 1 c)
              (map (fun ic => mkReader (as_nat (nth (fst ic) kinds (Num 0%Z)))
-                                      (as_nat (nth (fst ic) hows (Num 0%Z))) (snd ic))
+                                      (iter_how (as_nat (nth (fst ic) hows (Num 0%Z)))) (snd ic))
                   (combine (seq 0 (length chains)) chains))
              (map as_hstep (as_list (nth_s 3 c)))
              (map abs_nat (as_list (nth_s 4 c)))
